@@ -28,13 +28,12 @@ impl BitReader {
         BitReader { data: u128::from_be_bytes(bytes), bits_read: start_bit, len_bits }
     }
     /// symbolic reader: any 128 bits, positioned anywhere in the first 64 bits
-    #[cfg(kani)]
     pub fn any() -> Self {
         let bytes: [u8; 16] = kani::any();
         let start: u8 = kani::any();
         kani::assume(start < 64);
         let len: u8 = kani::any();
-        kani::assume(len <= 128);
+        kani::assume(len <= 128 && len % 8 == 0); // inputs are whole bytes
         BitReader::new(bytes, start as usize, len as usize)
     }
     #[inline]
